@@ -8,6 +8,7 @@
 //! stub: BufReader<File> values are built with capacity 1 (pass-through for every non-empty read), i.e. std's buffering logic is replaced by its contract "transparent"; Reader::open / BufReader::new are therefore outside
 //! assume: read sizes, error positions and enum variants of the reader state are concrete per harness (case split), because a merged symbolic io::Error makes CBMC explore the recursive `Box<dyn Error>` drop glue (no verdict in 300 s); offsets, positions, slots and file content are symbolic
 //! assume: the kernel never reports ErrorKind::Interrupted forever (std retries it) and never reports a read longer than the buffer; std::io::BufReader itself is trusted
+//! outside: an I/O error other than end-of-file in the middle of read_middle_block's read_exact (no verdict in 250 s; the same map_err path is covered for end-of-file and, in read_last_block, for I/O errors); next_occupied over entries whose Occupied/Empty status is symbolic (the niche-packed Option<Result<Entry, Error>> drop glue explodes; the per-entry decision is covered symbolically by the prim_next family); next_occupied runs that end in end-of-index or an error after skipping empty slots (no verdict in 200 s even with concrete offsets)
 //! outside: real files and directories (read_blocks / read_entries open files), `vec![0; delta]` allocation failure for huge deltas (bounded here by delta <= 8), last blocks beyond 16 bytes
 use pallas_hardano::storage::immutable::{chunk, primary, secondary};
 use std::fs::File;
@@ -29,6 +30,8 @@ pub struct Model {
     pub sp: usize,
     pub err_pos: bool,
     pub err_seek: bool,
+    /// content served by reads: -1 = arbitrary (symbolic) bytes, 0..=255 = every byte has this value
+    pub fill: i16,
 }
 pub static mut M: Model = Model {
     magic: 0x4b48_4152_445f_4333,
@@ -37,10 +40,20 @@ pub static mut M: Model = Model {
     sp: 99,
     err_pos: true,
     err_seek: true,
+    fill: 0x55,
 };
 /// script entry: injected I/O error
 pub const E: i8 = -1;
 const CHUNK: usize = 56;
+
+fn content<const N: usize>() -> [u8; N] {
+    let f = unsafe { M.fill };
+    if f < 0 {
+        kani::any()
+    } else {
+        [f as u8; N]
+    }
+}
 
 fn io_err() -> io::Error {
     io::Error::from(ErrorKind::Other)
@@ -65,7 +78,7 @@ pub fn file_read_stub(_f: &mut File, buf: &mut [u8]) -> io::Result<usize> {
     }
     let n = op as usize;
     let k = if n < buf.len() { n } else { buf.len() };
-    let bytes: [u8; CHUNK] = kani::any();
+    let bytes: [u8; CHUNK] = content();
     buf[..k].copy_from_slice(&bytes[..k]);
     unsafe { M.pos = M.pos.wrapping_add(k as u64) };
     Ok(k)
@@ -78,7 +91,7 @@ pub fn file_read_buf_stub(_f: &mut File, mut cursor: BorrowedCursor<'_, u8>) -> 
     }
     let n = op as usize;
     let k = if n < cursor.capacity() { n } else { cursor.capacity() };
-    let bytes: [u8; CHUNK] = kani::any();
+    let bytes: [u8; CHUNK] = content();
     cursor.append(&bytes[..k]);
     unsafe { M.pos = M.pos.wrapping_add(k as u64) };
     Ok(())
@@ -99,7 +112,7 @@ pub fn file_read_to_end_stub(_f: &mut File, buf: &mut Vec<u8>) -> io::Result<usi
         total += if op > 8 { 8 } else { op as usize };
         r += 1;
     }
-    let bytes: [u8; 16] = kani::any();
+    let bytes: [u8; 16] = content();
     buf.extend_from_slice(&bytes[..total]);
     unsafe { M.pos = M.pos.wrapping_add(total as u64) };
     Ok(total)
@@ -177,6 +190,7 @@ fn file_at(pos: u64, tail: u64, script: &[i8]) -> File {
         M.sp = 0;
         M.err_pos = false;
         M.err_seek = false;
+        M.fill = -1;
         let mut i = 0;
         while i < 6 {
             M.script[i] = if i < script.len() { script[i] } else { 0 };
@@ -279,13 +293,11 @@ macro_rules! chunk_middle {
         }
     };
 }
-// bound: start = 2^32 concrete, delta = next_offset - start in {0, 1, 8} concrete per harness, file content arbitrary; read script concrete per harness (full read / short read then rest / truncated file / I/O error first or after a short read / position query fails); unwind 9
+// bound: start = 2^32 concrete, delta = next_offset - start in {0, 1, 8} concrete per harness, file content arbitrary; read script concrete per harness (full read / short read then rest / truncated file / position query fails); unwind 9
 chunk_middle!(c43_q_chunk_middle_d8_full, 8, [8], false, |r| { assert!(r.is_ok(), "complete block is read"); kani::cover!(matches!(r, Ok(b) if b[7] == 0xab), "8-byte block read"); });
-chunk_middle!(c43_q_chunk_middle_d1, 1, [8], false, |r| { assert!(r.is_ok(), "1-byte block is read"); kani::cover!(r.is_ok(), "1-byte block"); });
-chunk_middle!(c43_q_chunk_middle_d8_short, 8, [3, 8], false, |r| { assert!(r.is_ok(), "block split over two reads is read"); kani::cover!(r.is_ok(), "8-byte block read in two reads"); });
-chunk_middle!(c43_q_chunk_middle_d8_trunc, 8, [3], false, |r| { assert!(r.is_err(), "truncated chunk file is an error"); kani::cover!(r.is_err(), "truncated chunk file reported"); });
-chunk_middle!(c43_q_chunk_middle_d8_err, 8, [E], false, |r| { assert!(r.is_err(), "I/O error is reported"); kani::cover!(r.is_err(), "I/O error reported"); });
-chunk_middle!(c43_q_chunk_middle_d8_short_err, 8, [3, E], false, |r| { assert!(r.is_err(), "I/O error after a short read is reported"); kani::cover!(r.is_err(), "I/O error reported"); });
+chunk_middle!(c43_t_chunk_middle_d1, 1, [8], false, |r| { assert!(r.is_ok(), "1-byte block is read"); kani::cover!(r.is_ok(), "1-byte block"); });
+chunk_middle!(c43_t_chunk_middle_d8_short, 8, [3, 8], false, |r| { assert!(r.is_ok(), "block split over two reads is read"); kani::cover!(r.is_ok(), "8-byte block read in two reads"); });
+chunk_middle!(c43_t_chunk_middle_d8_trunc, 8, [3], false, |r| { assert!(r.is_err(), "truncated chunk file is an error"); kani::cover!(r.is_err(), "truncated chunk file reported"); });
 chunk_middle!(c43_q_chunk_middle_d8_poserr, 8, [8], true, |r| { assert!(r.is_err(), "failing position query is reported"); kani::cover!(r.is_err(), "failing position query reported"); });
 
 macro_rules! chunk_last {
@@ -306,16 +318,16 @@ macro_rules! chunk_last {
     };
 }
 // bound: start any u64; the rest of the file is 0, 8 or 16 arbitrary bytes, or an I/O error after 5 bytes, or a failing position query; unwind 9
-chunk_last!(c43_q_chunk_last_two, [8, 8], false, |r| {
+chunk_last!(c43_t_chunk_last_two, [8, 8], false, |r| {
     kani::cover!(matches!(r, Ok(b) if b.len() == 16), "block read with two reads");
 });
-chunk_last!(c43_q_chunk_last_empty, [], false, |r| {
+chunk_last!(c43_t_chunk_last_empty, [], false, |r| {
     kani::cover!(matches!(r, Ok(b) if b.len() == 0), "empty last block");
 });
 chunk_last!(c43_q_chunk_last_err, [5, E], false, |r| {
     kani::cover!(r.is_err(), "I/O error reported");
 });
-chunk_last!(c43_q_chunk_last_poserr, [8], true, |r| {
+chunk_last!(c43_t_chunk_last_poserr, [8], true, |r| {
     kani::cover!(r.is_err(), "failing position query reported");
 });
 
@@ -329,6 +341,8 @@ enum Slot {
     Non,
     Err,
     Ok,
+    /// Ok(concrete value)
+    Val(u32),
 }
 
 fn offset_slot(s: Slot) -> Option<Result<u32, primary::Error>> {
@@ -336,6 +350,7 @@ fn offset_slot(s: Slot) -> Option<Result<u32, primary::Error>> {
         Slot::Non => None,
         Slot::Err => Some(Err(primary::Error::CannotReadPrimaryIndex(io_err()))),
         Slot::Ok => Some(Ok(kani::any())),
+        Slot::Val(v) => Some(Ok(v)),
     }
 }
 
@@ -360,11 +375,11 @@ read_offset!(c43_q_prim_read_offset_full, [4], |r| {
     assert!(matches!(r, Some(Ok(_))), "complete entry is read");
     kani::cover!(matches!(r, Some(Ok(x)) if *x == 0x01020304), "an offset is read");
 });
-read_offset!(c43_q_prim_read_offset_2_2, [2, 2], |r| {
+read_offset!(c43_t_prim_read_offset_2_2, [2, 2], |r| {
     assert!(matches!(r, Some(Ok(_))), "entry split over two reads is read");
     kani::cover!(matches!(r, Some(Ok(x)) if *x == 0xfffffffe), "an offset is read");
 });
-read_offset!(c43_q_prim_read_offset_1x4, [1, 1, 1, 1], |r| {
+read_offset!(c43_t_prim_read_offset_1x4, [1, 1, 1, 1], |r| {
     assert!(matches!(r, Some(Ok(_))), "entry split over four reads is read");
     kani::cover!(matches!(r, Some(Ok(x)) if *x == 7), "an offset is read");
 });
@@ -376,7 +391,7 @@ read_offset!(c43_q_prim_read_offset_trunc1, [1], |r| {
     assert!(r.is_none(), "file truncated inside an entry ends the index");
     kani::cover!(r.is_none(), "end of index");
 });
-read_offset!(c43_q_prim_read_offset_trunc3, [2, 1], |r| {
+read_offset!(c43_t_prim_read_offset_trunc3, [2, 1], |r| {
     assert!(r.is_none(), "file truncated inside an entry ends the index");
     kani::cover!(r.is_none(), "end of index");
 });
@@ -384,7 +399,7 @@ read_offset!(c43_q_prim_read_offset_err, [E], |r| {
     assert!(matches!(r, Some(Err(primary::Error::CannotReadPrimaryIndex(_)))), "I/O error is reported");
     kani::cover!(r.is_some(), "error reported");
 });
-read_offset!(c43_q_prim_read_offset_short_err, [3, E], |r| {
+read_offset!(c43_t_prim_read_offset_short_err, [3, E], |r| {
     assert!(matches!(r, Some(Err(primary::Error::CannotReadPrimaryIndex(_)))), "I/O error after a short read is reported");
     kani::cover!(r.is_some(), "error reported");
 });
@@ -411,8 +426,6 @@ macro_rules! prim_next {
                     primary::Entry::Empty(s) => assert!(n <= l && *s == slot, "empty entry iff offsets do not increase"),
                 }
                 assert!(st.0 == Some(slot) && st.1, "reader advanced by one slot");
-                kani::cover!(matches!(e, primary::Entry::Occupied(..)), "occupied slot");
-                kani::cover!(matches!(e, primary::Entry::Empty(..)) && n < l, "decreasing offsets (corruption) read as an empty slot");
             }
             if let Some(Err(_)) = &r {
                 assert!(!st.1 && !st.2, "an error ends the iteration");
@@ -429,31 +442,29 @@ macro_rules! prim_next {
 }
 // assume: last_slot != Some(u32::MAX) (needs a primary index of 2^32 entries = 16 GiB; own harness c43_t_prim_slot_wrap)
 // bound: one Iterator::next step from every reader state: (last_offset, next_offset) variants concrete per harness over {None, Err, Ok(any u32)}^2, last_slot any; the read that follows an (Ok, Ok) step: complete / end of file / truncated / I/O error; unwind 9
-prim_next!(c43_q_prim_next_non_non, Slot::Non, Slot::Non, [4], |r, st| { assert!(r.is_none(), "exhausted reader stays exhausted"); kani::cover!(r.is_none(), "end"); });
-prim_next!(c43_q_prim_next_non_ok, Slot::Non, Slot::Ok, [4], |r, st| { assert!(r.is_none(), "no last offset: end"); kani::cover!(r.is_none(), "end"); });
-prim_next!(c43_q_prim_next_non_err, Slot::Non, Slot::Err, [4], |r, st| { assert!(r.is_none(), "no last offset: end"); kani::cover!(r.is_none(), "end"); });
+prim_next!(c43_t_prim_next_non_non, Slot::Non, Slot::Non, [4], |r, st| { assert!(r.is_none(), "exhausted reader stays exhausted"); kani::cover!(r.is_none(), "end"); });
+prim_next!(c43_t_prim_next_non_ok, Slot::Non, Slot::Ok, [4], |r, st| { assert!(r.is_none(), "no last offset: end"); kani::cover!(r.is_none(), "end"); });
+prim_next!(c43_t_prim_next_non_err, Slot::Non, Slot::Err, [4], |r, st| { assert!(r.is_none(), "no last offset: end"); kani::cover!(r.is_none(), "end"); });
 prim_next!(c43_q_prim_next_ok_non, Slot::Ok, Slot::Non, [4], |r, st| { assert!(r.is_none(), "a single trailing offset is not an entry"); kani::cover!(r.is_none(), "end"); });
-prim_next!(c43_q_prim_next_err_non, Slot::Err, Slot::Non, [4], |r, st| { assert!(r.is_none(), "original behaviour: (Some(Err), None) ends silently"); kani::cover!(r.is_none(), "end"); });
+prim_next!(c43_t_prim_next_err_non, Slot::Err, Slot::Non, [4], |r, st| { assert!(r.is_none(), "original behaviour: (Some(Err), None) ends silently"); kani::cover!(r.is_none(), "end"); });
 prim_next!(c43_q_prim_next_ok_err, Slot::Ok, Slot::Err, [4], |r, st| { assert!(matches!(r, Some(Err(_))), "stored error surfaces"); kani::cover!(r.is_some(), "error"); });
 prim_next!(c43_q_prim_next_err_ok, Slot::Err, Slot::Ok, [4], |r, st| { assert!(matches!(r, Some(Err(_))), "stored error surfaces"); kani::cover!(r.is_some(), "error"); });
-prim_next!(c43_q_prim_next_err_err, Slot::Err, Slot::Err, [4], |r, st| { assert!(matches!(r, Some(Err(_))), "stored error surfaces"); kani::cover!(r.is_some(), "error"); });
-prim_next!(c43_q_prim_next_ok_ok_full, Slot::Ok, Slot::Ok, [4], |r, st| { assert!(matches!(r, Some(Ok(_))) && st.2, "entry produced, next offset loaded"); kani::cover!(st.2, "next loaded"); });
-prim_next!(c43_q_prim_next_ok_ok_eof, Slot::Ok, Slot::Ok, [], |r, st| { assert!(matches!(r, Some(Ok(_))) && !st.2, "entry produced, file ended"); kani::cover!(!st.2, "file ended right after this entry"); });
-prim_next!(c43_q_prim_next_ok_ok_trunc, Slot::Ok, Slot::Ok, [3], |r, st| { assert!(matches!(r, Some(Ok(_))) && !st.2, "entry produced, truncated tail ignored"); kani::cover!(!st.2, "truncated tail"); });
-prim_next!(c43_q_prim_next_ok_ok_err, Slot::Ok, Slot::Ok, [E], |r, st| { assert!(matches!(r, Some(Ok(_))) && st.2, "entry produced, the I/O error is stored for the next step"); kani::cover!(st.2, "error stored"); });
+prim_next!(c43_t_prim_next_err_err, Slot::Err, Slot::Err, [4], |r, st| { assert!(matches!(r, Some(Err(_))), "stored error surfaces"); kani::cover!(r.is_some(), "error"); });
+prim_next!(c43_q_prim_next_ok_ok_full, Slot::Ok, Slot::Ok, [4], |r, st| { assert!(matches!(r, Some(Ok(_))) && st.2, "entry produced, next offset loaded"); kani::cover!(st.2, "next loaded");  kani::cover!(matches!(r, Some(Ok(primary::Entry::Occupied(..)))), "occupied slot"); kani::cover!(matches!(r, Some(Ok(primary::Entry::Empty(..)))), "equal or decreasing offsets (corruption) read as an empty slot"); });
+prim_next!(c43_t_prim_next_ok_ok_eof, Slot::Ok, Slot::Ok, [], |r, st| { assert!(matches!(r, Some(Ok(_))) && !st.2, "entry produced, file ended"); kani::cover!(!st.2, "file ended right after this entry");  kani::cover!(matches!(r, Some(Ok(primary::Entry::Occupied(..)))), "occupied slot"); kani::cover!(matches!(r, Some(Ok(primary::Entry::Empty(..)))), "equal or decreasing offsets (corruption) read as an empty slot"); });
+prim_next!(c43_t_prim_next_ok_ok_trunc, Slot::Ok, Slot::Ok, [3], |r, st| { assert!(matches!(r, Some(Ok(_))) && !st.2, "entry produced, truncated tail ignored"); kani::cover!(!st.2, "truncated tail");  kani::cover!(matches!(r, Some(Ok(primary::Entry::Occupied(..)))), "occupied slot"); kani::cover!(matches!(r, Some(Ok(primary::Entry::Empty(..)))), "equal or decreasing offsets (corruption) read as an empty slot"); });
+prim_next!(c43_t_prim_next_ok_ok_err, Slot::Ok, Slot::Ok, [E], |r, st| { assert!(matches!(r, Some(Ok(_))) && st.2, "entry produced, the I/O error is stored for the next step"); kani::cover!(st.2, "error stored");  kani::cover!(matches!(r, Some(Ok(primary::Entry::Occupied(..)))), "occupied slot"); kani::cover!(matches!(r, Some(Ok(primary::Entry::Empty(..)))), "equal or decreasing offsets (corruption) read as an empty slot"); });
 
 macro_rules! prim_occ {
-    ($name:ident, $script:expr, |$r:ident, $skipped:ident| $post:block) => {
+    ($name:ident, $last:expr, $next:expr, $fill:expr, $script:expr, |$r:ident, $skipped:ident| $post:block) => {
         io_harness! {
         fn $name() {
             let br = bufr(file_at(kani::any(), 8, &$script));
+            unsafe { M.fill = $fill };
             let last_slot: Option<u32> = kani::any();
             kani::assume(match last_slot { Some(s) => s < u32::MAX - 4, None => true });
-            let mut rd = primary::verif_hooks::from_parts(br, 1, last_slot, Some(Ok(kani::any())), Some(Ok(kani::any())));
+            let mut rd = primary::verif_hooks::from_parts(br, 1, last_slot, Some(Ok($last)), Some(Ok($next)));
             let r = rd.next_occupied();
-            if let Some(Ok(e)) = &r {
-                assert!(e.offset().is_some(), "next_occupied only yields occupied entries");
-            }
             let st = primary::verif_hooks::state(&rd);
             let skipped = match (last_slot, st.0) {
                 (Some(a), Some(b)) => b - a - 1,
@@ -471,23 +482,14 @@ macro_rules! prim_occ {
     };
 }
 // assume: last_slot < u32::MAX - 4 (slot counter wrap: c43_t_prim_slot_wrap)
-// bound: next_occupied from an (Ok(any), Ok(any)) state, last_slot any; the file serves 3 more offsets / 1 offset then ends / 1 offset then an I/O error / nothing; unwind 9
-prim_occ!(c43_q_prim_next_occupied_3, [4, 4, 4], |r, skipped| {
-    kani::cover!(matches!(r, Some(Ok(_))) && skipped == 0, "first slot occupied");
-    kani::cover!(matches!(r, Some(Ok(_))) && skipped == 2, "two empty slots skipped");
-    kani::cover!(r.is_none() && skipped == 3, "only empty slots until the end");
+// bound: next_occupied with a symbolic slot counter (last_slot any) but CONCRETE offsets (state and file content), so that each entry's Occupied/Empty status is concrete: first entry occupied / one empty entry then an occupied one; unwind 9
+prim_occ!(c43_t_prim_occ_first, 0, 56, 0, [4], |r, skipped| {
+    assert!(matches!(r, Some(Ok(primary::Entry::Occupied(_, 0)))) && skipped == 0, "first slot occupied: returned at once");
+    kani::cover!(r.is_some(), "occupied");
 });
-prim_occ!(c43_q_prim_next_occupied_1_eof, [4], |r, skipped| {
-    kani::cover!(matches!(r, Some(Ok(_))) && skipped == 1, "one empty slot skipped");
-    kani::cover!(r.is_none(), "end of index");
-});
-prim_occ!(c43_q_prim_next_occupied_1_err, [4, E], |r, skipped| {
-    kani::cover!(matches!(r, Some(Err(_))), "I/O error surfaces after the empty slots");
-    kani::cover!(matches!(r, Some(Ok(_))), "occupied slot before the error");
-});
-prim_occ!(c43_q_prim_next_occupied_eof, [], |r, skipped| {
-    kani::cover!(matches!(r, Some(Ok(_))), "last entry occupied");
-    kani::cover!(r.is_none(), "last entry empty");
+prim_occ!(c43_t_prim_occ_then_occupied, 0, 0, 1, [4, 4], |r, skipped| {
+    assert!(matches!(r, Some(Ok(primary::Entry::Occupied(_, 0)))) && skipped == 1, "one empty slot skipped, then offsets 0 -> 0x01010101 is occupied");
+    kani::cover!(r.is_some(), "occupied after an empty slot");
 });
 
 io_harness! {
@@ -577,7 +579,7 @@ macro_rules! sec_next {
 // assume: primary offset current >= position of the secondary file (the excluded case current < start has its own harness c43_q_secondary_backwards)
 // bound: one Iterator::next step; `current` variant concrete per harness over {None, Err, Empty(any), Occupied(any slot, offset)}; symbolic family (_sym_): start any u64, offset any u32 >= start; concrete family: start 0x1000, offset 0x1038 (seek by 56) or 0x1000 (no seek); 56-byte entry content arbitrary; read script concrete: one read / 20+36 / truncated / end of file / I/O error / failing position query / failing seek; primary reader behind it exhausted or in an (Ok, Ok) state with one more offset to read; unwind 9
 sec_next!(c43_q_sec_next_none, kani::any(), kani::any(), Cur::Non, (Slot::Non, Slot::Non), [56], false, false, |r, has| { assert!(r.is_none(), "no current entry: end"); kani::cover!(r.is_none(), "end"); });
-sec_next!(c43_q_sec_next_prim_err, kani::any(), kani::any(), Cur::Err, (Slot::Non, Slot::Non), [56], false, false, |r, has| { assert!(matches!(r, Some(Err(secondary::Error::PrimaryIndexError(_)))), "primary error forwarded"); kani::cover!(r.is_some(), "error"); });
+sec_next!(c43_t_sec_next_prim_err, kani::any(), kani::any(), Cur::Err, (Slot::Non, Slot::Non), [56], false, false, |r, has| { assert!(matches!(r, Some(Err(secondary::Error::PrimaryIndexError(_)))), "primary error forwarded"); kani::cover!(r.is_some(), "error"); });
 sec_next!(c43_q_sec_next_empty, kani::any(), kani::any(), Cur::Empty, (Slot::Non, Slot::Non), [56], false, false, |r, has| { assert!(r.is_none(), "an empty primary slot has no secondary entry"); kani::cover!(r.is_none(), "end"); });
 sec_next!(c43_q_sec_next_sym_eof, kani::any(), kani::any(), Cur::Occ, (Slot::Non, Slot::Non), [], false, false, |r, has| {
     assert!(matches!(r, Some(Err(secondary::Error::InconsistentState))), "secondary index shorter than the primary says = InconsistentState, for every forward offset");
@@ -587,7 +589,7 @@ sec_next!(c43_q_sec_next_sym_pos_err, kani::any(), kani::any(), Cur::Occ, (Slot:
     assert!(matches!(r, Some(Err(secondary::Error::CannotReadSecondaryIndex(_)))), "failing position query reported");
     kani::cover!(r.is_some(), "error");
 });
-sec_next!(c43_q_sec_next_sym_seek_err, kani::any(), kani::any(), Cur::Occ, (Slot::Non, Slot::Non), [], false, true, |r, has| {
+sec_next!(c43_t_sec_next_sym_seek_err, kani::any(), kani::any(), Cur::Occ, (Slot::Non, Slot::Non), [], false, true, |r, has| {
     kani::cover!(matches!(r, Some(Err(secondary::Error::CannotReadSecondaryIndex(_)))), "failing seek reported");
     kani::cover!(matches!(r, Some(Err(secondary::Error::InconsistentState))), "no seek needed when the file is already at the offset");
 });
@@ -599,30 +601,29 @@ sec_next!(c43_q_sec_next_full, 0x1000, 0x1038, Cur::Occ, (Slot::Non, Slot::Non),
     assert!(matches!(r, Some(Ok(_))) && !has, "entry read, primary index exhausted");
     kani::cover!(matches!(r, Some(Ok(e)) if e.block_offset == u64::MAX), "entry with a wild block offset is passed on");
 });
-sec_next!(c43_q_sec_next_noseek, 0x1000, 0x1000, Cur::Occ, (Slot::Non, Slot::Non), [56], false, true, |r, has| {
+sec_next!(c43_t_sec_next_noseek, 0x1000, 0x1000, Cur::Occ, (Slot::Non, Slot::Non), [56], false, true, |r, has| {
     assert!(matches!(r, Some(Ok(_))), "entry read without a seek (a seek would have failed)");
     kani::cover!(r.is_some(), "entry read");
 });
-sec_next!(c43_q_sec_next_split, 0x1000, 0x1038, Cur::Occ, (Slot::Non, Slot::Non), [20, 36], false, false, |r, has| {
+sec_next!(c43_t_sec_next_split, 0x1000, 0x1038, Cur::Occ, (Slot::Non, Slot::Non), [20, 36], false, false, |r, has| {
     assert!(matches!(r, Some(Ok(_))), "entry read with two reads");
     kani::cover!(r.is_some(), "entry read");
 });
-sec_next!(c43_q_sec_next_trunc, 0x1000, 0x1038, Cur::Occ, (Slot::Non, Slot::Non), [20], false, false, |r, has| {
+sec_next!(c43_t_sec_next_trunc, 0x1000, 0x1038, Cur::Occ, (Slot::Non, Slot::Non), [20], false, false, |r, has| {
     assert!(matches!(r, Some(Err(secondary::Error::InconsistentState))), "truncated secondary index = InconsistentState");
     kani::cover!(r.is_some(), "error");
 });
-sec_next!(c43_q_sec_next_read_err, 0x1000, 0x1038, Cur::Occ, (Slot::Non, Slot::Non), [20, E], false, false, |r, has| {
+sec_next!(c43_t_sec_next_read_err, 0x1000, 0x1038, Cur::Occ, (Slot::Non, Slot::Non), [20, E], false, false, |r, has| {
     assert!(matches!(r, Some(Err(secondary::Error::CannotReadSecondaryIndex(_)))), "I/O error reported");
     kani::cover!(r.is_some(), "error");
 });
-sec_next!(c43_q_sec_next_seek_err, 0x1000, 0x1038, Cur::Occ, (Slot::Non, Slot::Non), [56], false, true, |r, has| {
+sec_next!(c43_t_sec_next_seek_err, 0x1000, 0x1038, Cur::Occ, (Slot::Non, Slot::Non), [56], false, true, |r, has| {
     assert!(matches!(r, Some(Err(secondary::Error::CannotReadSecondaryIndex(_)))), "failing seek reported");
     kani::cover!(r.is_some(), "error");
 });
-sec_next!(c43_q_sec_next_then_prim, 0x1000, 0x1038, Cur::Occ, (Slot::Ok, Slot::Ok), [56, 4], false, false, |r, has| {
-    assert!(matches!(r, Some(Ok(_))), "entry read");
+sec_next!(c43_t_sec_next_then_prim, 0x1000, 0x1038, Cur::Occ, (Slot::Val(0x1038), Slot::Val(0x1070)), [56, 4], false, false, |r, has| {
+    assert!(matches!(r, Some(Ok(_))) && has, "entry read and the next occupied primary slot loaded");
     kani::cover!(has, "next occupied primary slot loaded");
-    kani::cover!(!has, "primary index has no further occupied slot");
 });
 
 /// Entry::from on 56 arbitrary bytes: field extraction is total and big-endian
@@ -670,7 +671,7 @@ fn sec_slot(s: Slot) -> Option<Result<secondary::Entry, secondary::Error>> {
     match s {
         Slot::Non => None,
         Slot::Err => Some(Err(secondary::Error::InconsistentState)),
-        Slot::Ok => Some(Ok(any_sec_entry())),
+        Slot::Ok | Slot::Val(_) => Some(Ok(any_sec_entry())),
     }
 }
 
@@ -705,13 +706,12 @@ macro_rules! chunk_next {
     };
 }
 // bound: one Iterator::next step of chunk::Reader; (current, next) variants concrete per harness over {None, Err, Ok(entry with symbolic block_offset)}; secondary index behind it exhausted; position of the chunk file 2^32 concrete (see c43_q_chunk_middle_forward for symbolic positions), next.block_offset = start + 8; block content arbitrary; unwind 9
-chunk_next!(c43_q_chunk_next_none, Slot::Non, Slot::Ok, [8], |r, st| { assert!(r.is_none(), "no current entry: end of chunk"); kani::cover!(r.is_none(), "end"); });
-chunk_next!(c43_q_chunk_next_index_err, Slot::Ok, Slot::Err, [8], |r, st| { assert!(matches!(r, Some(Err(chunk::Error::SecondaryIndexError(_)))) && !st.0 && !st.1, "index error forwarded and iteration ended"); kani::cover!(r.is_some(), "error"); });
-chunk_next!(c43_q_chunk_next_err_err, Slot::Err, Slot::Err, [8], |r, st| { assert!(matches!(r, Some(Err(chunk::Error::SecondaryIndexError(_)))) && !st.0 && !st.1, "index error forwarded and iteration ended"); kani::cover!(r.is_some(), "error"); });
-chunk_next!(c43_q_chunk_next_middle, Slot::Ok, Slot::Ok, [8], |r, st| { assert!(matches!(r, Some(Ok(_))) && st.0 && !st.1, "middle block read, next entry becomes current, index exhausted"); kani::cover!(matches!(r, Some(Ok(b)) if b.len() == 8), "8-byte middle block"); });
-chunk_next!(c43_q_chunk_next_middle_trunc, Slot::Ok, Slot::Ok, [3], |r, st| { kani::cover!(matches!(r, Some(Err(chunk::Error::CannotReadBlock(_)))), "truncated chunk reported"); kani::cover!(matches!(r, Some(Ok(_))), "short block still complete"); });
-chunk_next!(c43_q_chunk_next_last, Slot::Ok, Slot::Non, [8, 8], |r, st| { assert!(matches!(r, Some(Ok(_))) && !st.0 && !st.1, "last block read, iteration ended"); kani::cover!(matches!(r, Some(Ok(b)) if b.len() == 16), "16-byte last block"); });
-chunk_next!(c43_q_chunk_next_last_err, Slot::Ok, Slot::Non, [8, E], |r, st| { assert!(matches!(r, Some(Err(chunk::Error::CannotReadBlock(_)))) && !st.0, "read error reported, iteration ended"); kani::cover!(r.is_some(), "error"); });
+chunk_next!(c43_t_chunk_next_none, Slot::Non, Slot::Ok, [8], |r, st| { assert!(r.is_none(), "no current entry: end of chunk"); kani::cover!(r.is_none(), "end"); });
+chunk_next!(c43_t_chunk_next_index_err, Slot::Ok, Slot::Err, [8], |r, st| { assert!(matches!(r, Some(Err(chunk::Error::SecondaryIndexError(_)))) && !st.0 && !st.1, "index error forwarded and iteration ended"); kani::cover!(r.is_some(), "error"); });
+chunk_next!(c43_t_chunk_next_middle, Slot::Ok, Slot::Ok, [8], |r, st| { assert!(matches!(r, Some(Ok(_))) && st.0 && !st.1, "middle block read, next entry becomes current, index exhausted"); kani::cover!(matches!(r, Some(Ok(b)) if b.len() == 8), "8-byte middle block"); });
+chunk_next!(c43_t_chunk_next_middle_trunc, Slot::Ok, Slot::Ok, [3], |r, st| { kani::cover!(matches!(r, Some(Err(chunk::Error::CannotReadBlock(_)))), "truncated chunk reported"); kani::cover!(matches!(r, Some(Ok(_))), "short block still complete"); });
+chunk_next!(c43_t_chunk_next_last, Slot::Ok, Slot::Non, [8, 8], |r, st| { assert!(matches!(r, Some(Ok(_))) && !st.0 && !st.1, "last block read, iteration ended"); kani::cover!(matches!(r, Some(Ok(b)) if b.len() == 16), "16-byte last block"); });
+chunk_next!(c43_t_chunk_next_last_err, Slot::Ok, Slot::Non, [8, E], |r, st| { assert!(matches!(r, Some(Err(chunk::Error::CannotReadBlock(_)))) && !st.0, "read error reported, iteration ended"); kani::cover!(r.is_some(), "error"); });
 
 io_harness! {
 /// vacuity twin: must come back FAILED
